@@ -120,7 +120,7 @@ def all_specs():
 
 def select(tier, seed, sample=None, with_singles=True):
     specs = all_specs()
-    if tier == "thorough":
+    if tier == "thorough" and sample is None:
         return specs
     singles = [s for s in specs if s[2] is None]
     pairs = [s for s in specs if s[2] is not None]
